@@ -285,11 +285,18 @@ def note_low_temperature(chk, fam, text, r):
 
 def run(chk):
     quick = chk.tier == "quick"
-    ok, log = chk.prove(["props/Properties_C17_loops.vo", "extract/Extract_C01.vo", "extract/Extract_ED.vo"])
+    ok, log = chk.prove(["props/Properties_C17_loops.vo", "extract/Extract_C01.vo", "extract/Extract_ED.vo"],
+                        extra_props=["Properties_C01_source.v"])
     chk.extra["c17_loops_theorems"] = pv.count_obligations("Properties_C17_loops.v")
     ax17, _ = pv.print_assumptions("Properties_C17_loops.v") if ok else ({}, "")
     chk.extra["c17_loops_axioms"] = ax17
     chk.trusted += ["translator/gen_c01.py and translator/cexpr.py",
+                    "translator/gen_lehmann.py with translator/cstmt.py (statement splitter + shape recognition): reads, one generated file per C++ function, "
+                    "the control structure of GreensFunctionPart::compute, TermList::add_term / operator(), the call operators of GreensFunctionPart and "
+                    "GreensFunction (coq/gen/Gen_Leh*.v in the vocabulary coq/theories/LehmannShapes.v); coq/theories/LehmannInterp.v gives the descriptions "
+                    "their meaning; Properties_C01_source.v = the agreement with the hand-written models and the theorems about the interpreted source. "
+                    "coq/theories/TermList.v models add_term in its find/erase/insert form: it agrees with the retry loop of the source when at most one "
+                    "stored term is like the added one (add_term_src_agrees_with_model) and differs otherwise (add_term_forms_differ)",
                     "extraction: ExtrOcamlBasic, ExtrOcamlNatInt, ExtrOCamlFloats; no Extract Constant of our own",
                     "ocaml/driver_c01.ml, ocaml/driver_ed.ml (parsing, assembling, printing), harness/h_c01.cpp, harness/h_ed.cpp, harness/ed_common.h",
                     "Eigen's self-adjoint solver: certified per run (|HU-UE|, |U^+U-1| < 1e-9 from the oracle driver); exp of libm",
